@@ -98,31 +98,58 @@ fn every_other_variant() -> Vec<cosmwasm_std::CosmosMsg> {
     v
 }
 
-fn w_execute(_d: DepsMut, _e: Env, _i: MessageInfo, _m: Empty) -> StdResult<Response> {
+fn w_execute(_d: DepsMut, e: Env, _i: MessageInfo, _m: Empty) -> StdResult<Response> {
+    if e.block.height == 999 {
+        return Err(StdError::generic_err("probe error of w_execute"));
+    }
     Ok(rich("execute"))
 }
-fn w_instantiate(_d: DepsMut, _e: Env, _i: MessageInfo, _m: Empty) -> StdResult<Response> {
+fn w_instantiate(_d: DepsMut, e: Env, _i: MessageInfo, _m: Empty) -> StdResult<Response> {
+    if e.block.height == 999 {
+        return Err(StdError::generic_err("probe error of w_instantiate"));
+    }
     Ok(rich("instantiate"))
 }
-fn w_query(_d: Deps, _e: Env, _m: Empty) -> StdResult<Binary> {
+fn w_query(_d: Deps, e: Env, _m: Empty) -> StdResult<Binary> {
+    if e.block.height == 999 {
+        return Err(StdError::generic_err("probe error of w_query"));
+    }
     Ok(Binary::from(b"query".to_vec()))
 }
-fn w_sudo(_d: DepsMut, _e: Env, _m: Empty) -> StdResult<Response> {
+fn w_sudo(_d: DepsMut, e: Env, _m: Empty) -> StdResult<Response> {
+    if e.block.height == 999 {
+        return Err(StdError::generic_err("probe error of w_sudo"));
+    }
     Ok(rich("sudo"))
 }
-fn w_sudo_e(_d: DepsMut, _e: Env, _m: Empty) -> StdResult<Response> {
+fn w_sudo_e(_d: DepsMut, e: Env, _m: Empty) -> StdResult<Response> {
+    if e.block.height == 999 {
+        return Err(StdError::generic_err("probe error of w_sudo_e"));
+    }
     Ok(rich("sudo_empty"))
 }
-fn w_reply(_d: DepsMut, _e: Env, _m: Reply) -> StdResult<Response> {
+fn w_reply(_d: DepsMut, e: Env, _m: Reply) -> StdResult<Response> {
+    if e.block.height == 999 {
+        return Err(StdError::generic_err("probe error of w_reply"));
+    }
     Ok(rich("reply"))
 }
-fn w_reply_e(_d: DepsMut, _e: Env, _m: Reply) -> StdResult<Response> {
+fn w_reply_e(_d: DepsMut, e: Env, _m: Reply) -> StdResult<Response> {
+    if e.block.height == 999 {
+        return Err(StdError::generic_err("probe error of w_reply_e"));
+    }
     Ok(rich("reply_empty"))
 }
-fn w_migrate(_d: DepsMut, _e: Env, _m: Empty) -> Result<Response, StdError> {
+fn w_migrate(_d: DepsMut, e: Env, _m: Empty) -> Result<Response, StdError> {
+    if e.block.height == 999 {
+        return Err(StdError::generic_err("probe error of w_migrate"));
+    }
     Ok(rich("migrate"))
 }
-fn w_migrate_e(_d: DepsMut, _e: Env, _m: Empty) -> Result<Response, StdError> {
+fn w_migrate_e(_d: DepsMut, e: Env, _m: Empty) -> Result<Response, StdError> {
+    if e.block.height == 999 {
+        return Err(StdError::generic_err("probe error of w_migrate_e"));
+    }
     Ok(rich("migrate_empty"))
 }
 
@@ -162,6 +189,28 @@ pub fn probe_wrapper(c: Box<dyn Contract<Empty, Empty>>, _rt: &Rt) -> Vec<String
     ];
     let altered = altered.into_inner();
     out.push(if altered.is_empty() { "responses: intact".to_string() } else { format!("responses: {}", altered.join("; ")) });
+    // the error a supplied function returns arrives as that error, still of its own type (tests downcast it)
+    let mut env9 = mock_env();
+    env9.block.height = 999;
+    let info9 = MessageInfo { sender: Addr::unchecked("s"), funds: vec![] };
+    fn kind<T>(r: AnyResult<T>) -> String {
+        match r {
+            Ok(_) => "no-error".into(),
+            Err(e) => match e.downcast_ref::<StdError>() {
+                Some(StdError::GenericErr { msg, .. }) if msg.starts_with("probe error of w_") => format!("typed({})", msg.trim_start_matches("probe error of w_")),
+                _ => "untyped".into(),
+            },
+        }
+    }
+    out.push(format!(
+        "errors: execute={} instantiate={} query={} sudo={} reply={} migrate={}",
+        kind(c.execute(deps.as_mut(), env9.clone(), info9.clone(), b"{}".to_vec())),
+        kind(c.instantiate(deps.as_mut(), env9.clone(), info9, b"{}".to_vec())),
+        kind(c.query(deps.as_ref(), env9.clone(), b"{}".to_vec())),
+        kind(c.sudo(deps.as_mut(), env9.clone(), b"{}".to_vec())),
+        kind(c.reply(deps.as_mut(), env9.clone(), reply_with(3, true))),
+        kind(c.migrate(deps.as_mut(), env9, b"{}".to_vec()))
+    ));
     out
 }
 
@@ -197,12 +246,18 @@ fn main() {
                 format!("migrate: {}", has("migrate").unwrap_or("absent")),
                 format!("checksum: {}", match last_checksum { Some("checksum") => rt.checksum().to_hex(), Some(_) => rt.decoy_checksum().to_hex(), None => "none".into() }),
                 "responses: intact".to_string(),
+                format!(
+                    "errors: execute=typed(execute) instantiate=typed(instantiate) query=typed(query) sudo={} reply={} migrate={}",
+                    has("sudo").map(|n| format!("typed({})", n.replace("_empty", "_e"))).unwrap_or_else(|| "untyped".into()),
+                    has("reply").map(|n| format!("typed({})", n.replace("_empty", "_e"))).unwrap_or_else(|| "untyped".into()),
+                    has("migrate").map(|n| format!("typed({})", n.replace("_empty", "_e"))).unwrap_or_else(|| "untyped".into())
+                ),
             ];
             for (g, w) in t.iter().zip(want.iter()) {
                 slots += 1;
                 if g != w {
                     let slot = w.split(':').next().unwrap_or("");
-                    let sig = if slot == "checksum" { "wrapper-checksum-lost-in-a-minimal-features-build".to_string() } else if slot == "responses" { "wrapper-alters-the-response-of-an-entry-point".to_string() } else { format!("wrapper-{}-entry-point-lost", slot) };
+                    let sig = if slot == "checksum" { "wrapper-checksum-lost-in-a-minimal-features-build".to_string() } else if slot == "responses" { "wrapper-alters-the-response-of-an-entry-point".to_string() } else if slot == "errors" { "wrapper-alters-the-error-of-an-entry-point".to_string() } else { format!("wrapper-{}-entry-point-lost", slot) };
                     violations.push(json!([sig, format!("reduced-features build, chain {:?}: [{}], expected [{}]", steps, g.chars().take(300).collect::<String>(), w), steps]));
                 }
             }
